@@ -250,13 +250,18 @@ Definition is_mapped (a : ip) : bool := beqb (firstn 12 a) v4in6_prefix.
 
 Lemma to4_some_len x y : to4 x = Some y -> length y = 4%nat.
 Proof.
-  destruct (to4_cases x) as [[H1 H2]|[(H1 & H2 & H3)|(H1 & H2 & H3)]]; rewrite ?H2, ?H3; intros H; inversion H; subst; auto.
-  now apply skipn12_length.
+  destruct (to4_cases x) as [[H1 H2]|[(H1 & H2 & H3)|(H1 & H2 & H3)]].
+  - rewrite H2. intros H. injection H as <-. exact H1.
+  - rewrite H3. intros H. injection H as <-. now apply skipn12_length.
+  - rewrite H3. discriminate.
 Qed.
 
 Lemma to4_none_len x : to4 x = None -> length x <> 4%nat.
 Proof.
-  destruct (to4_cases x) as [[H1 H2]|[(H1 & H2 & H3)|(H1 & H2 & H3)]]; rewrite ?H2, ?H3; intros H; try discriminate; auto.
+  destruct (to4_cases x) as [[H1 H2]|[(H1 & H2 & H3)|(H1 & H2 & H3)]].
+  - rewrite H2. discriminate.
+  - rewrite H3. discriminate.
+  - intros _. exact H1.
 Qed.
 
 Lemma contains4 a4 n x : length a4 = 4%nat -> n <= 32 ->
